@@ -73,7 +73,7 @@ def run(ctx):
                 ctx.violation("safe-oob:" + arm,
                               "safe routine %s (macro arm %s) called with lengths a=%d+%d b%+d r%+d DIMS%+d, mask %d, %s build: %s" % (
                                   name, arm, n, delta[0], delta[1], delta[2], delta[3], mask, config,
-                                  "crashed on a guard page (out-of-bounds access)" if (a is None or a.startswith("signal"))
+                                  ("did not return within the harness watchdog (a loop that does not terminate)" if (a and "timeout" in a) else "crashed on a guard page (out-of-bounds access)") if (a is None or a.startswith("signal"))
                                   else "touched memory outside its slices"),
                               {"kind": "input", "case": "safe " + c[:4000], "build": config, "observed": a,
                                "expected": "panic (assertion) or a result computed inside the slices"})
@@ -100,7 +100,8 @@ def run(ctx):
                 ctx.violation("safe-oob-after-earlier-calls:" + arm,
                               "safe routine %s (macro arm %s), documented call with n=%d, mask %d, %s build, issued after other documented "
                               "calls (lengths descending) in the same process: %s" % (
-                                  name, arm, n, mask, config, "crashed on a guard page (out-of-bounds access)"
+                                  name, arm, n, mask, config, ("did not return within the harness watchdog" if (a and "timeout" in a) else
+                                                               "crashed on a guard page (out-of-bounds access)")
                                   if (a is None or a.startswith("signal")) else "touched memory outside its slices"),
                               {"kind": "history", "case": "safe " + c[:4000], "build": config, "observed": a,
                                "sequence": "the documented calls of this run in reversed order, two processes (stride 2)"})
